@@ -465,6 +465,8 @@ impl Unparser {
   }
 
   fn operand(&mut self, t: &T, class: ParenClass) {
+    // `< x` takes a simple value only, so a pair of parentheses around it is never *needed*; it is always written
+    let class = if matches!(t, T::Unary(..)) && class == ParenClass::Needed { ParenClass::Unknown } else { class };
     let composite = t.prec() != PREC_ATOM;
     let paren = match self.mode {
       Mode::Full => composite || class != ParenClass::NotNeeded,
@@ -498,6 +500,10 @@ impl Unparser {
   /// `t` as the left operand of an operator token of precedence `p`: the parser reduces `t` before
   /// shifting the token iff the precedence of t's rule is higher (or equal and left-associative).
   pub fn class_left(t: &T, p: u8, assoc: char) -> ParenClass {
+    if matches!(t, T::Unary(..)) {
+      // `< x` as a left operand is always written in parentheses and the pair is never dropped
+      return ParenClass::Unknown;
+    }
     if t.is_prefix() {
       return ParenClass::Needed;
     }
